@@ -9,7 +9,7 @@ import itertools
 from hypothesis import strategies as st
 
 from pbt.core import Outcome
-from pbt.props._loops import KINDS, LOGICS, RAISE_KINDS, make_loop, permitted
+from pbt.props._loops import KINDS, LOGICS, RAISE_KINDS, UNKNOWN_KINDS, make_loop, permitted
 
 TECHNIQUE = "exhaustive 6x7x7 verdict table through run() + Hypothesis-generated request histories against a reference gate table, token-binding and cache-consistency oracles"
 LEVEL_TEXT = ("Exploration: the full gate-logic x executor-verdict x assessor-verdict table is enumerated through the real loop with stub agents "
@@ -27,13 +27,14 @@ ASSUMPTIONS = [
     "prompts contain no lone surrogates (hashing encodes the prompt)",
     "circuit breaker disabled here (C08 covers it); real-time cache TTL (300 s) is never reached within a case",
 ]
+RULE += " Added after the seeded rounds: " + 'Stub agents report a generated confidence (0.0 / 0.5 / 0.9 / 1.0) and raise one of 16 exception types.'
 EXHAUSTIVE_NOTE = {"quick": "6x7x7 verdict table x (4 prompts x cache on/off + 3 confidence corners) = 3234 cells, complete",
                    "thorough": "6x7x7 verdict table x (4 prompts x cache on/off + 3 confidence corners) = 3234 cells, complete"}
 
 _POOL = ["", "deploy", "deploy ", "Deploy", "a" * 300, "delete all", "x", "café ☃"]
 _prompt = st.one_of(st.sampled_from(_POOL), st.text(max_size=20))
 _conf = st.sampled_from([0.9, 0.9, 0.0, 1.0, 0.5])
-_ALLK = KINDS + sorted(RAISE_KINDS)
+_ALLK = KINDS + sorted(RAISE_KINDS) + UNKNOWN_KINDS
 _req = st.tuples(_prompt, st.sampled_from(_ALLK), st.sampled_from(_ALLK + ["PERMIT", "PERMIT", "BLOCK"]), _conf, _conf).map(list)
 
 
@@ -43,6 +44,11 @@ def strategy(tier):
 
 
 def enumerate_cases(tier):
+    for logic, u in itertools.product(LOGICS, UNKNOWN_KINDS):
+        for other in ("EXECUTE", "PERMIT", "BLOCK", "FAILURE"):
+            for cache in (False, True):
+                yield {"logic": logic, "cache": cache, "reqs": [["unknown-word", other, u], ["unknown-word", other, u]]}
+                yield {"logic": logic, "cache": cache, "reqs": [["unknown-word", u, other], ["unknown-word", u, other]]}
     for logic, e, a in itertools.product(LOGICS, KINDS, KINDS):
         for prompt in ("deploy", "", "café ☃", "x" * 200):
             for cache in (False, True):
